@@ -7,6 +7,7 @@ using namespace ibex; using namespace vh; using namespace std;
 static string varset_tok(const VarSet& v) { string vs; for (int k = 0; k < v.nb_var; k++) { if (k) vs += "."; vs += to_string(v.var(k)); } return vs; }
 static double dyadic(Rng& r) { return r.range(-16, 16) / 8.0; }
 
+static bool VECTOR_INEQS = false;   // (set by the workloads that want vector-valued inequalities)
 struct Problem { System* sys; string dags, specs; int n, m, k; vector<Vector> planted; };
 
 // a system with planted solution(s): equations g_i(x)=g_i(p*), inequalities satisfied at p* with a margin
@@ -33,7 +34,25 @@ static bool make_problem(Rng& r, Problem& P) {
     if (j < m) { if (!v.is_degenerated()) return false; op = EQ; cst = v.lb(); spec = "eq"; }
     else if (r.coin()) { op = LEQ; cst = v.ub() + r.range(1, 8) / 8.0; spec = "leq"; }
     else { op = GEQ; cst = v.lb() - r.range(1, 8) / 8.0; spec = "geq"; }
-    const ExprNode& full = e - ExprConstant::new_scalar(cst);
+    const ExprNode* fullp = &(e - ExprConstant::new_scalar(cst));
+    if (j >= m && VECTOR_INEQS && r.coin(35)) {
+      // a vector-valued inequality: 2-3 components, the same comparison, each satisfied at p with a margin
+      int nc = r.range(2, 3); Array<const ExprNode> comps(nc); bool okv = true; int pos = r.below(nc);
+      for (int c = 0; c < nc && okv; c++) {
+        if (c == pos) { comps.set_ref(c, *fullp); continue; }
+        GenCfg cfg2 = cfg; cfg2.max_depth = r.range(1, 2); ExprGen g2(r, cfg2); for (int i = 0; i < n; i++) g2.syms.push_back(&x[i]);
+        const ExprNode& ec = g2.gen(1, 1, cfg2.max_depth);
+        Array<const ExprSymbol> cp2(n); for (int i = 0; i < n; i++) cp2.set_ref(i, ExprSymbol::new_(x[i].name, Dim::scalar()));
+        Function tmp2(cp2, ExprCopy().copy(x, cp2, ec), "t2");
+        Interval v2 = tmp2.eval(IntervalVector(p));
+        if (v2.is_empty() || v2.is_unbounded()) { okv = false; break; }
+        double c2 = (op == LEQ) ? v2.ub() + r.range(1, 8) / 8.0 : v2.lb() - r.range(1, 8) / 8.0;
+        comps.set_ref(c, ec - ExprConstant::new_scalar(c2));
+      }
+      if (!okv) return false;
+      fullp = &ExprVector::new_col(comps);
+    }
+    const ExprNode& full = *fullp;
     if (j) { P.dags += "|"; P.specs += "|"; }
     P.dags += dump_expr(full, x); P.specs += spec;
     fac.add_ctr(ExprCtr(full, op));
@@ -96,3 +115,44 @@ static bool make_multi(Rng& r, Problem& P) {
   return true;
 }
 
+
+// inequalities (and possibly an equation) that are exactly ACTIVE at the planted point p, a corner of the box:
+// the feasible set is the single point p, a face through p, or a segment
+static bool make_touch(Rng& r, Problem& P) {
+  int n = r.range(1, 3); P.n = n;
+  Vector p(n); for (int i = 0; i < n; i++) p[i] = r.range(-8, 8) / 4.0;
+  SystemFactory fac;
+  Array<const ExprSymbol> x(n); for (int i = 0; i < n; i++) x.set_ref(i, ExprSymbol::new_(("x" + to_string(i)).c_str(), Dim::scalar()));
+  IntervalVector box(n); vector<double> s(n);
+  for (int i = 0; i < n; i++) { double a = r.range(1, 8) / 4.0; if (r.coin()) { box[i] = Interval(p[i] - a, p[i]); s[i] = 1; } else { box[i] = Interval(p[i], p[i] + a); s[i] = -1; } }
+  fac.add_var(x, box);
+  P.dags = ""; P.specs = ""; P.planted.clear(); P.planted.push_back(p);
+  vector<const ExprNode*> es; vector<CmpOp> ops; vector<string> specs;
+  int type = r.below(n >= 2 ? 4 : 3);
+  switch (type) {
+    case 0: { // corner: sum s_i x_i >= sum s_i p_i
+      const ExprNode* e = &(s[0] * x[0]); double c = s[0] * p[0]; for (int i = 1; i < n; i++) { e = &(*e + s[i] * x[i]); c += s[i] * p[i]; }
+      es.push_back(&(*e - c)); ops.push_back(GEQ); specs.push_back("geq"); break; }
+    case 1: { // face: s_0 x_0 >= s_0 p_0   (written the other way round half of the time)
+      if (r.coin()) { es.push_back(&(s[0] * x[0] - s[0] * p[0])); ops.push_back(GEQ); specs.push_back("geq"); }
+      else { es.push_back(&(s[0] * p[0] - s[0] * x[0])); ops.push_back(LEQ); specs.push_back("leq"); }
+      break; }
+    case 2: { // a disc touching the face x_0 = p_0 at p
+      double rad = r.range(1, 4) / 2.0;
+      const ExprNode* e = &sqr(x[0] - (p[0] - s[0] * rad)); for (int i = 1; i < n; i++) e = &(*e + sqr(x[i] - p[i]));
+      es.push_back(&(*e - rad * rad)); ops.push_back(LEQ); specs.push_back("leq");
+      es.push_back(&(s[0] * x[0] - s[0] * p[0])); ops.push_back(GEQ); specs.push_back("geq"); break; }
+    default: { // an equation x_0 - x_1 = p_0 - p_1 and the corner inequality
+      es.push_back(&(x[0] - x[1] - (p[0] - p[1]))); ops.push_back(EQ); specs.push_back("eq");
+      es.push_back(&(s[0] * x[0] + s[1] * x[1] - (s[0] * p[0] + s[1] * p[1]))); ops.push_back(GEQ); specs.push_back("geq"); break; }
+  }
+  P.m = 0; P.k = 0;
+  for (size_t j = 0; j < es.size(); j++) {
+    if (j) { P.dags += "|"; P.specs += "|"; }
+    P.dags += dump_expr(*es[j], x); P.specs += specs[j];
+    fac.add_ctr(ExprCtr(*es[j], ops[j]));
+    if (ops[j] == EQ) P.m++; else P.k++;
+  }
+  P.sys = new System(fac);
+  return true;
+}
